@@ -157,6 +157,17 @@ type Finding struct {
 	Match    map[string]string `json:"match,omitempty"`
 	Commit   string            `json:"commit,omitempty"`
 	Witness  any               `json:"witness,omitempty"`
+	// Pins: cases (seed, tier, index) known to run into this finding. Every run of the property
+	// re-runs the pinned cases of its open findings, so each listed finding is demonstrated (or shown
+	// to be gone) on every run, whatever VERIF_SEED the run itself uses. Written by
+	// scripts/pin_findings.py at development time, never at run time.
+	Pins []Pin `json:"pins,omitempty"`
+}
+
+type Pin struct {
+	Seed  int64  `json:"seed"`
+	Tier  string `json:"tier"`
+	Index int    `json:"index"`
 }
 
 func loadFindings() []Finding {
@@ -405,6 +416,13 @@ func ParentMain(o RunOpts) int {
 		}
 		if f := matchFinding(findings, o.Prop, v); f != nil {
 			knownHit[f.ID]++
+			if lp := os.Getenv("VERIF_LIST_KNOWN"); lp != "" && idx >= 0 {
+				// development aid for scripts/pin_findings.py: which case ran into which listed finding
+				if fh, err := os.OpenFile(lp, os.O_CREATE|os.O_APPEND|os.O_WRONLY, 0o644); err == nil {
+					fmt.Fprintf(fh, "%s %s %d %s %d\n", f.ID, o.Prop, o.Seed, o.Tier, idx)
+					fh.Close()
+				}
+			}
 			return
 		}
 		path := writeReplay(o, idx, v)
@@ -420,6 +438,58 @@ func ParentMain(o RunOpts) int {
 	}
 	for _, rv := range agg.violations {
 		report(rv.idx, rv.v)
+	}
+	// ---- pinned witnesses of the open findings of this property (full runs only)
+	pinnedRuns := 0
+	if o.Only < 0 {
+		for fi := range findings {
+			f := &findings[fi]
+			if f.Status != "open" || f.Property != o.Prop || knownHit[f.ID] > 0 {
+				continue
+			}
+			for pi, pin := range f.Pins {
+				if pi >= 2 || knownHit[f.ID] > 0 {
+					break
+				}
+				if pin.Index < 0 || pin.Index >= p.NumCases(pin.Tier) {
+					continue
+				}
+				name := fmt.Sprintf("pin-%s-%d", f.ID, pi)
+				args := []string{"worker", "--prop", o.Prop, "--tier", pin.Tier, "--seed", strconv.FormatInt(pin.Seed, 10),
+					"--from", strconv.Itoa(pin.Index), "--to", strconv.Itoa(pin.Index + 1), "--dir", dir, "--name", name}
+				cmd := exec.Command(exe, args...)
+				lf, _ := os.Create(filepath.Join(dir, name+".log"))
+				cmd.Stdout, cmd.Stderr = lf, lf
+				cmd.Env = append(os.Environ(), "GORACE=halt_on_error=0 exitcode=0 log_path="+filepath.Join(dir, name+".race"), "GOTRACEBACK=all")
+				cmd.SysProcAttr = &syscall.SysProcAttr{Setpgid: true}
+				if err := cmd.Start(); err != nil {
+					lf.Close()
+					continue
+				}
+				timer := time.AfterFunc(time.Duration(timeout+60)*time.Second, func() { syscall.Kill(-cmd.Process.Pid, syscall.SIGKILL) })
+				_ = cmd.Wait()
+				timer.Stop()
+				lf.Close()
+				pinnedRuns++
+				b, err := os.ReadFile(filepath.Join(dir, name+".results"))
+				if err != nil {
+					continue
+				}
+				for _, line := range bytes.Split(b, []byte("\n")) {
+					var r Result
+					if len(line) == 0 || json.Unmarshal(line, &r) != nil {
+						continue
+					}
+					for _, v := range r.Violations {
+						// only what the listed findings explain is taken from a pinned case: anything else it
+						// shows belongs to the run at (pin.Seed, pin.Tier), not to this run
+						if m := matchFinding(findings, o.Prop, v); m != nil {
+							knownHit[m.ID]++
+						}
+					}
+				}
+			}
+		}
 	}
 	seenCrash := map[string]bool{}
 	for _, c := range crashes {
@@ -451,8 +521,11 @@ func ParentMain(o RunOpts) int {
 	for _, f := range findings {
 		if knownHit[f.ID] > 0 {
 			fmt.Printf("KNOWN-FINDING: property=%s %s (id=%s, hit %d×)\n", o.Prop, f.What, f.ID, knownHit[f.ID])
+		} else if f.Status == "open" && f.Property == o.Prop && o.Only < 0 {
+			fmt.Printf("NOTE: listed finding %s was not run into by this run (no case of this seed/tier has its shape%s)\n", f.ID, map[bool]string{true: " and its pinned witness did not show it", false: ""}[len(f.Pins) > 0])
 		}
 	}
+	_ = pinnedRuns
 	// a run that observed nothing is broken machinery
 	if o.Only < 0 {
 		for _, c := range p.RequiredCounters(o.Tier) {
